@@ -292,12 +292,27 @@ theorem Base.micro {j0 : JobObj} {jo : JobObj} {sp s s' : Sys} (hb : Base j0 s) 
     · exact hb.frame h
     · have := (hb.jobOK c hc').1
       exact hb.jobWrite h ⟨this.name, this.uid, this.template⟩
+  | updStatusOn s1 _ _ _ =>
+    rcases apiUpdateJobStatus_spec s { jo with rv := updatedRv s jo } { jo with job := (sync sp jo).2.1 } with
+      h | ⟨c, hc', _, h⟩
+    · exact hb.frame h
+    · have := (hb.jobOK c hc').1
+      exact hb.jobWrite h ⟨this.name, this.uid, this.template⟩
 
 theorem Base.micros {j0 : JobObj} {jo : JobObj} {sp s s' : Sys} (hb : Base j0 s) (hc : s.jobCache = some jo)
     (hm : Micros jo sp s s') : Base j0 s' ∧ s'.jobCache = some jo := by
   induction hm with
   | refl => exact ⟨hb, hc⟩
   | tail _ hm ih => exact ⟨ih.1.micro ih.2 hm, hm.static.jobCache.trans ih.2⟩
+
+/-- in the state the metadata write of a pass is issued in, the cached Job is the stored one as soon
+as their resourceVersions agree (`rvId` carried through the micro-steps of `sync`) -/
+theorem cachedIsCur_sync {j0 jo : JobObj} {sp : Sys} (hb : Base j0 sp) (hc : sp.jobCache = some jo) :
+    CachedIsCur jo (sync sp jo).1 := by
+  have hm := (sync_spec sp jo sp (CreatePhase.refl _)).1
+  have hb1 := hb.micros hc hm
+  intro c hcj hrv
+  exact (hb1.1.rvId c hcj jo (mem_seenVers_cache hb1.2) hrv.symm).symm
 
 /-! ### preservation by every action -/
 
